@@ -104,12 +104,23 @@ func (s *state) removeTorrent(h core.InfoHash, err error) {
 	if !ok {
 		return
 	}
-	if !ctrl.dispatcher.Complete() {
+	complete := ctrl.dispatcher.Complete()
+	if !complete {
 		ctrl.dispatcher.TearDown()
 		s.announceQueue.Eject(h)
-		for _, errc := range ctrl.errors {
+	}
+	// The dispatcher may have completed while its completion event is still
+	// queued behind this removal: that event will no longer find the control,
+	// so pending requests are answered here (with success, the blob is cached).
+	for _, errc := range ctrl.errors {
+		if complete {
+			errc <- nil
+		} else {
 			errc <- err
 		}
+	}
+	ctrl.errors = nil
+	if !complete {
 		s.sched.netevents.Produce(networkevent.TorrentCancelledEvent(h, s.sched.pctx.PeerID))
 		if err := s.sched.torrentArchive.DeleteTorrent(ctrl.dispatcher.Digest()); err != nil {
 			s.sched.log().Errorf("Error deleting torrent from archive: %s", err)
